@@ -54,9 +54,10 @@ def extract(g, X):
     g.attempt([("crypt_owner_rev2", "N"), ("crypt_owner_rounds2", "N"), ("crypt_owner_rounds", "N")], "crypt.rs:from_password owner rounds", owner_rounds)
 
     def dispatch():
-        v1 = re.search(r"(\d+)\s*=>\s*\((\d+),\s*CryptMethod::V2\)", fp)
+        v1 = re.search(r"(\d+)\s*=>\s*\((\d+),\s*CryptMethod::V2,\s*CryptMethod::V2\)", fp)
         v2 = re.search(r"(\d+)\s*=>\s*\{\s*if\s+\w+\.bits\s*%\s*(\d+)\s*!=\s*0", fp)
-        v4 = re.search(r"(\d+)\s*\.\.=\s*(\d+)\s*=>\s*\{\s*let\s+\w+\s*=\s*\w+\s*\.crypt_filters", fp)
+        v4 = re.search(r"(\d+)\s*\.\.=\s*(\d+)\s*=>\s*\{\s*let\s+\(\w+,\s*\w+\)\s*=\s*crypt_filter\(\w+,\s*\w+\.default_crypt_filter\.as_ref\(\)\)\?;"
+                       r"\s*let\s+\(\w+,\s*\w+\)\s*=\s*crypt_filter\(\w+,\s*\w+\.string_crypt_filter\.as_ref\(\)\)\?;", fp)
         v5 = re.search(r"CryptMethod::AESV3\s+if\s+\w+\.v\s*==\s*(\d+)", fp)
         lv = re.search(r"!\((\d+)\s*\.\.=\s*(\d+)\)\.contains\(&\w+\)", fp)
         rc = re.search(r"if\s+\w+\s*<=\s*(\d+)\s*\{\s*let\s+\w+\s*=\s*\w+\s+as\s+usize\s*/\s*8", fp)
@@ -68,6 +69,19 @@ def extract(g, X):
     g.attempt([("crypt_v_rc4_40", "N"), ("crypt_bits_40", "N"), ("crypt_v_rc4", "N"), ("crypt_bits_mod", "N"), ("crypt_v_cf_lo", "N"),
                ("crypt_v_cf_hi", "N"), ("crypt_v_aesv3", "N"), ("crypt_r_lo", "N"), ("crypt_r_hi", "N"), ("crypt_r_rc4_max", "N"),
                ("crypt_u_len", "N"), ("crypt_o_len", "N"), ("crypt_pw_trunc", "N")], "crypt.rs:from_password dispatch", dispatch)
+
+    def file_key():
+        chk = re.search(r"\.map_err\(\|_\|\s*PdfError::InvalidPassword\)\);\s*if\s+(\w+)\.len\(\)\s*!=\s*(\d+)\s*\{\s*err!", fp)
+        new = re.search(r"Decoder::with_methods\(\s*(\w+)\.into\(\),\s*(\d+),", fp)
+        same(chk.group(1), new.group(1))
+        return chk.group(2), new.group(2)
+    g.attempt([("crypt_fk_len", "N"), ("crypt_fk_size", "N")], "crypt.rs:from_password R5/R6 file key", file_key)
+
+    def identity():
+        b = X.fn_body(fp, "crypt_filter")
+        m = re.search(r'Some\((\w+)\)\s+if\s+\1\.as_str\(\)\s*!=\s*"([^"]*)"\s*=>\s*\1,\s*_\s*=>\s*return\s+Ok\(\(None,\s*CryptMethod::None\)\)', b)
+        return (X.cl(list(m.group(2).encode())),)
+    g.attempt([("crypt_identity_name", "list N")], "crypt.rs:from_password crypt_filter Identity", identity)
 
     def slices():
         out = []
@@ -92,7 +106,7 @@ def extract(g, X):
               "crypt.rs:revision_6_kdf", kdf)
 
     def dec():
-        b = X.fn_body(src, "decrypt")
+        b = X.fn_body(src, "decrypt_with")
         salt = re.search(r'copy_from_slice\(b"([^"]*)"\)', b)
         idb = re.search(r"id\.id\.to_le_bytes\(\)\[\.\.(\d+)\]", b)
         gb = re.search(r"id\.gen\.to_le_bytes\(\)\[\.\.(\d+)\]", b)
